@@ -148,6 +148,15 @@ func (v *Vue) evalBoundAttribute(ctx VueContext, attrName, expr string) (any, er
 		return v.evalObjectBinding(ctx, attrName, expr), nil
 	}
 
+	// A leading negation reads as it does in v-if: the truthiness of the operand, negated
+	if isNegation(expr) {
+		val, err := v.evalConditionExpr(ctx, expr)
+		if err != nil {
+			return "", err
+		}
+		return val, nil
+	}
+
 	// Check if it's a function call or pipe expression
 	if strings.Contains(expr, "|") || helpers.IsFunctionCall(expr) || helpers.IsComplexExpr(expr) {
 		pipe := parsePipeExpr(expr)
@@ -158,9 +167,8 @@ func (v *Vue) evalBoundAttribute(ctx VueContext, attrName, expr string) (any, er
 		return val, nil
 	}
 
-	// Regular variable binding
-	valResolved, ok := ctx.stack.Resolve(expr)
-	if ok {
+	// Regular variable binding, or a literal
+	if valResolved, ok := v.resolveValue(ctx, expr); ok {
 		return valResolved, nil
 	}
 	return "", nil
